@@ -56,7 +56,7 @@ func (s Sem) toJSON() map[string]any {
 	}
 }
 
-var starSpell int
+var starSpell, starAuthSpell int
 
 var safelistedMethods = []string{"GET", "HEAD", "POST"}
 var normalisable = map[string]bool{"DELETE": true, "GET": true, "HEAD": true, "OPTIONS": true, "POST": true, "PUT": true}
@@ -157,14 +157,18 @@ func (s Sem) spell(rng *rand.Rand) *cors.Config {
 	if s.HStar {
 		// the position of `*` alternates deterministically (with the seed's parity: the shards of a check cover both): LAST -
 		// every discrete name, `authorization` included, stands before it - and FIRST
-		starSpell++
+		k := &starSpell // one alternation per class: the anonymous `*` + authorization configurations have their own
+		if s.HAuth && !s.Cred {
+			k = &starAuthSpell
+		}
+		*k++
 		var rest []string
 		for _, n := range c.RequestHeaders {
 			if n != "*" {
 				rest = append(rest, n)
 			}
 		}
-		if (starSpell+int(seedFromEnv()))%2 == 0 {
+		if (*k+int(seedFromEnv()))%2 == 0 {
 			c.RequestHeaders = append(rest, "*")
 		} else {
 			c.RequestHeaders = append([]string{"*"}, rest...)
